@@ -108,6 +108,7 @@ type c04Ctl struct {
 	holdServer chan struct{} // closed to release a held server goroutine
 	ioCount    atomic.Int64
 	ioAt       int64
+	gate       *c06Gate // C06: hold the unary server goroutine at its start
 }
 
 func (k *c04Ctl) at(point string) {
@@ -171,6 +172,16 @@ func frameKindOf(arg string) string {
 }
 
 func (k *c04Ctl) hookPoint(point, arg string) {
+	if k.gate != nil {
+		if point == "unary.server.start" {
+			k.gate.once.Do(func() { close(k.gate.arrived) })
+			select {
+			case <-k.gate.release:
+			case <-time.After(stallBound):
+			}
+		}
+		return
+	}
 	name := "hook:" + point
 	if point != "unary.server.start" {
 		name += ":" + frameKindOf(arg)
@@ -184,7 +195,7 @@ func (k *c04Ctl) hookPoint(point, arg string) {
 		if wantNext := nextFrameAfter(p); wantNext == frameKindOf(arg) {
 			select {
 			case <-k.holdServer:
-			case <-time.After(2 * time.Second):
+			case <-time.After(20 * time.Millisecond): // the awaited client point may never come (no such frame)
 			}
 		}
 		return
